@@ -8,7 +8,7 @@
 //! Every thread compares what it observes with the result of the same call made sequentially
 //! (uncached build) before the threads were started, and panics on a difference.
 
-use scnr::{Lookahead, Pattern, Scanner, ScannerBuilder, ScannerMode, ScannerModeSwitcher};
+use scnr::{Lookahead, MatchExtIterator, Pattern, PeekResult, Scanner, ScannerBuilder, ScannerMode, ScannerModeSwitcher};
 use std::sync::Arc;
 
 type Tok = (usize, usize, usize);
@@ -57,6 +57,35 @@ fn scan(sc: &Scanner, input: &str, mode: usize, limit: usize) -> Vec<Tok> {
     v
 }
 
+/// The richer iterator API on one scanner: positions, peek, advance_to, set_offset.
+fn exercise(sc: &Scanner, input: &str) -> Vec<(usize, usize, usize, usize, usize)> {
+    let mut out = Vec::new();
+    for m in sc.find_iter(input).with_positions() {
+        out.push((m.token_type(), m.start(), m.end(), m.start_position().line, m.start_position().column));
+    }
+    let mut f = sc.find_iter(input);
+    let peeked = match f.peek_n(2) {
+        PeekResult::Matches(v) | PeekResult::MatchesReachedEnd(v) => v,
+        PeekResult::MatchesReachedModeSwitch((v, _)) => v,
+        PeekResult::NotFound => vec![],
+    };
+    for m in &peeked {
+        out.push((m.token_type(), m.start(), m.end(), 0, 0));
+    }
+    if let Some(m) = peeked.first() {
+        f.advance_to(m.end());
+    }
+    if let Some(m) = f.next() {
+        out.push((m.token_type(), m.start(), m.end(), 1, 1));
+    }
+    // reset to the second character (offsets must be on character boundaries)
+    f.set_offset(input.char_indices().nth(1).map(|x| x.0).unwrap_or(input.len()));
+    if let Some(m) = f.next() {
+        out.push((m.token_type(), m.start(), m.end(), 2, 2));
+    }
+    out
+}
+
 const INPUTS: &[&str] = &["aab\"x y\"c\u{e9}", "ab a\"", "\u{e9}aa", ""];
 
 fn main() {
@@ -81,6 +110,7 @@ fn main() {
         let exp_shared = scan(&reference[shared_variant as usize], input, 0, 64);
         let exp_shared_m1 = scan(&reference[shared_variant as usize], input, 1, 64);
         let exp_fail = fail_ref[v as usize];
+        let exp_exercise = exercise(&reference[shared_variant as usize], input);
         let shared = shared.clone();
         handles.push(std::thread::spawn(move || {
             match scenario {
@@ -103,6 +133,12 @@ fn main() {
                     let _ = scan(&shared, input, 0, k);
                     assert_eq!(scan(&shared, input, 0, 64), exp_shared, "shared scan differs");
                     assert_eq!(scan(&shared, input, 1, 64), exp_shared_m1, "shared scan (mode 1) differs");
+                }
+                // the richer iterator API (positions, peek, advance_to, set_offset) on the shared scanner
+                4 => {
+                    assert_eq!(exercise(&shared, input), exp_exercise, "shared iterator API differs");
+                    let sc = ScannerBuilder::new().add_scanner_modes(&modes(shared_variant)).build().expect("builds");
+                    assert_eq!(exercise(&sc, input), exp_exercise, "cached iterator API differs");
                 }
                 // mix
                 _ => {
